@@ -101,4 +101,9 @@ Definition point_eqb (p q : point) : bool :=
   list_eqb same_val (padd p) (padd q) && list_eqb same_val (prem p) (prem q).
 Definition fmts_eqb (a b : fmts) : bool :=
   list_eqb (fun x y => Nat.eqb (fst x) (fst y) && point_eqb (snd x) (snd y)) a b.
-Definition astr_eqb (a b : astr) : bool := str_eqb (base a) (base b) && fmts_eqb (tbl a) (tbl b).
+(* as repaired (F58): equal markers may pair up differently (a marker ends the setting OBJECT it refers to), so equality also
+   requires the same setting texts, in the same order, in effect after every marker *)
+Definition states_eqb (a b : fmts) : bool :=
+  list_eqb (list_eqb same_val) (map (fun x => snd x) (iter_states a [])) (map (fun x => snd x) (iter_states b [])).
+Definition astr_eqb (a b : astr) : bool :=
+  str_eqb (base a) (base b) && fmts_eqb (tbl a) (tbl b) && states_eqb (tbl a) (tbl b).
